@@ -169,7 +169,9 @@ func genDML(r *randSrc, typ string, uid *int64, ts uint64, db, coll string) msgs
 		req := &msgpb.InsertRequest{Base: base(commonpb.MsgType_Insert), ShardName: fmt.Sprintf("by-dev-dml_%d_%dv0", r.Intn(4), 4000+r.Intn(9)),
 			DbName: db, CollectionName: coll, PartitionName: part, DbID: int64(r.Intn(5)), CollectionID: 4000 + int64(r.Intn(9)), PartitionID: 5000 + int64(r.Intn(9)),
 			SegmentID: int64(r.Intn(1 << 20)), NumRows: uint64(rows), Version: msgpb.InsertDataVersion_ColumnBased}
-		bm := msgstream.BaseMsg{HashValues: []uint32{uint32(r.Intn(4))}}
+		im := &msgstream.InsertMsg{InsertRequest: req}
+		bm := &im.BaseMsg
+		bm.HashValues = []uint32{uint32(r.Intn(4))}
 		for i := 0; i < rows; i++ {
 			*uid++
 			req.RowIDs = append(req.RowIDs, *uid)
@@ -196,7 +198,7 @@ func genDML(r *randSrc, typ string, uid *int64, ts uint64, db, coll string) msgs
 		for f := 0; f < nf; f++ {
 			req.FieldsData = append(req.FieldsData, genFieldData(r, int64(101+f), rows))
 		}
-		return &msgstream.InsertMsg{BaseMsg: bm, InsertRequest: req}
+		return im
 	case "Delete":
 		rows := 1 + r.Intn(8)
 		req := &msgpb.DeleteRequest{Base: base(commonpb.MsgType_Delete), ShardName: fmt.Sprintf("by-dev-dml_%d_%dv0", r.Intn(4), 4000+r.Intn(9)),
